@@ -39,6 +39,22 @@ def interval_for(ctx, crate, body, cfg, site_bb, vlocal):
     for s, allowed, allv in dt.edge_conditions(cfg, site_bb):
         atom = dt.switch_atom(body, s)
         pol = dt.bool_polarity(allowed)
+        if atom[0] == "call" and pol is not None and atom[1]["call"]["def"] in RANGE_CONTAINS and len(atom[1]["args"]) == 2 \
+                and Tracer(body, through_calls=False).root_locals(atom[1]["args"][1]) == {vlocal}:
+            # (lo..=hi).contains(&v) / (lo..hi).contains(&v)
+            rb_ = range_bounds(crate, body, atom[1]["args"][0])
+            if rb_ is None:
+                unknown.append((s, "range with non-constant bounds"))
+                continue
+            rlo, rhi = rb_
+            if RANGE_CONTAINS[atom[1]["call"]["def"]] == "exclusive":
+                rhi -= 1
+            if pol:
+                lo = rlo if lo is None else max(lo, rlo)
+                hi = rhi if hi is None else min(hi, rhi)
+            else:
+                unknown.append((s, "outside a range (not an interval)"))
+            continue
         if atom[0] != "bin" or pol is None:
             unknown.append((s, atom[0]))
             continue
@@ -69,6 +85,44 @@ def interval_for(ctx, crate, body, cfg, site_bb, vlocal):
         else:
             unknown.append((s, "equality test"))
     return lo, hi, unknown
+
+
+RANGE_CONTAINS = {"core::ops::range::RangeInclusive::<Idx>::contains": "inclusive", "core::ops::range::Range::<Idx>::contains": "exclusive"}
+
+
+def range_bounds(crate, body, op):
+    """(lo, hi) of a RangeInclusive / Range operand built from constant bounds: a promoted `lo..=hi`, or a range constructed
+    in the body from foldable bounds"""
+    r = dt.resolve_copy(body, op)
+    # strip reborrows down to the defining constant / statement
+    seen = 0
+    while r[0] == "def" and r[1][1] != "T" and "ref" in r[1][2]["r"] and seen < 6:
+        seen += 1
+        pl = r[1][2]["r"]["ref"]
+        r = dt.resolve_copy(body, {"cp": pl if isinstance(pl, int) else pl["l"]})
+    if r[0] == "const" and "promoted" in r[1]:
+        pb = body.d["promoted"][r[1]["promoted"]]
+        for blk in pb["blocks"]:
+            t = blk["t"]
+            if "call" in t and t["call"]["def"] in ("core::ops::range::RangeInclusive::<Idx>::new",) and len(t["args"]) == 2:
+                vals = [(a.get("c") or {}).get("int") for a in t["args"]]
+                if all(isinstance(v, int) for v in vals):
+                    return vals[0], vals[1]
+            for st in blk["s"]:
+                if "d" in st and st["r"].get("agg") == "adt" and st["r"]["adt"] in ("core::ops::range::Range",):
+                    vals = [(a.get("c") or {}).get("int") for a in st["r"]["ops"]]
+                    if all(isinstance(v, int) for v in vals):
+                        return vals[0], vals[1]
+        return None
+    if r[0] == "def" and r[1][1] == "T" and r[1][2]["call"]["def"] == "core::ops::range::RangeInclusive::<Idx>::new":
+        vals = [bound_value(crate, body, a) for a in r[1][2]["args"]]
+        if all(isinstance(v, int) for v in vals):
+            return vals[0], vals[1]
+    if r[0] == "def" and r[1][1] != "T" and r[1][2]["r"].get("agg") == "adt" and r[1][2]["r"]["adt"] == "core::ops::range::Range":
+        vals = [bound_value(crate, body, a) for a in r[1][2]["r"]["ops"]]
+        if all(isinstance(v, int) for v in vals):
+            return vals[0], vals[1]
+    return None
 
 
 def bound_value(crate, body, op):
@@ -318,3 +372,7 @@ def run(ctx):
         o5 &= ctx.check(len(fs) == 1, "O5", b.loc(), f"{b.id}|fromplain", "FromPlain for SafeLong must delegate to its FromStr", instance="FromPlain -> FromStr")
     o5 &= ctx.check(len(fp) == 1, "O5", "conjure_object", "fromplain-exists", "FromPlain for SafeLong missing", nontrivial=False)
     ctx.obligation("O5 routes use lossless conversions and the checked constructor", o5 and routes >= 8)
+    # ---------------- O6 in-range safelong map keys are not refused by Any's key coercion (shared with C13 R13.3)
+    from . import c13
+    ctx.include(c13, {"R13.3"}, "O6", "an in-range safelong used as a map key inside an Any must be accepted")
+
